@@ -67,11 +67,17 @@ def axis_table_clause(model, rep, funcs):
         rep.instance("F.axes", f.loc())
         M = Matcher(f)
         b: dict = {}
-        ok, why = M.all_of(["$ax = self.x.astype($$t)", "$ay = self.y.astype($$t)", "$vx = $ax[$i]", "$vy = $ay[$i]", "$vz = cross($vx, $vy)",
-                            "$iz, $iy, $ix = (np.arange($s, ...) - $c for $s, $c in zip(shape, $center))",
-                            "$xa = $vx[:, np.newaxis] * $ix", "$ya = $vy[:, np.newaxis] * $iy", "$za = $vz[:, np.newaxis] * $iz",
-                            # placement of the three axes in the broadcast: z varies along array axis 1, y along 2, x along 3
-                            "$za[:, :, np.newaxis, np.newaxis] + $ya[:, np.newaxis, :, np.newaxis] + $xa[:, np.newaxis, np.newaxis, :]"], b)
+        # `cross(a, b)` of this module is `-np.cross(a, b, axis=...)` (rule F: def cross): the helper call and its inlined body are the same construct
+        ok, why = False, ""
+        for zpat in ("$vz = cross($vx, $vy)", "$vz = -np.cross($vx, $vy)", "$vz = -np.cross($vx, $vy, axis=None)"):
+            b.clear()
+            ok, why = M.all_of(["$ax = self.x.astype($$t)", "$ay = self.y.astype($$t)", "$vx = $ax[$i]", "$vy = $ay[$i]", zpat,
+                                "$iz, $iy, $ix = (np.arange($s, ...) - $c for $s, $c in zip(shape, $center))",
+                                "$xa = $vx[:, np.newaxis] * $ix", "$ya = $vy[:, np.newaxis] * $iy", "$za = $vz[:, np.newaxis] * $iz",
+                                # placement of the three axes in the broadcast: z varies along array axis 1, y along 2, x along 3
+                                "$za[:, :, np.newaxis, np.newaxis] + $ya[:, np.newaxis, :, np.newaxis] + $xa[:, np.newaxis, np.newaxis, :]"], b)
+            if ok:
+                break
         okc = False
         if ok:
             okc = M.has("$center = [$s2 / 2 - 0.5 for $s2 in shape]", b) or M.has("$center = [($s2 - 1) / 2 for $s2 in shape]", b)
@@ -131,8 +137,14 @@ def _from_axes_semantics(model, f):
 
     def is_cross(t, a, b):
         t = core(t)
+        # the module's `cross(a, b)` is `-np.cross(a, b, axis=...)` (rule F: def cross): its inlined body is the same value
+        if isinstance(t, T) and t.op == "un" and t.args[0] == "USub" and isinstance(t.args[1], T) and t.args[1].op == "call" and \
+                callee_name(t.args[1]) == "cross" and str(t.args[1].args[0]).startswith("numpy") and len(t.args[1].args[1]) >= 2:
+            return is_param(t.args[1].args[1][0], a) and is_param(t.args[1].args[1][1], b)
         if not (isinstance(t, T) and t.op == "call"):
             return False
+        if str(t.args[0]).startswith("numpy"):
+            return False  # np.cross without the sign flip is the left-handed product in z, y, x storage
         c = t.args[0]
         nm = callee_name(t) or (str(c.args[0]).rsplit(".", 1)[-1] if isinstance(c, T) and c.op in ("opaque", "ext") else None)
         if nm != "cross" or len(t.args[1]) < 2:
